@@ -76,8 +76,8 @@ MANIFEST = dict(
          "torn across pages of the real 30000-slot table is not reached). DeleteBefore/recovery may move the first index anywhere "
          "in the legal window and the reference is aligned to it; size-limited Entries must be a non-empty prefix; the oracle's own "
          "reads are part of the history (they warm the store's caches). Trusts: etcd MemoryStorage as the contract, the fileops "
-         "interception point, process-death failure model (no power loss). Six defects of the unchanged tree are recorded as known "
-         "findings with proposed repairs in /verif/fixes/C17-*.diff.",
+         "interception point, process-death failure model (no power loss). Seven violation kinds (three root causes) of the unchanged tree are recorded "
+         "as known findings with proposed repairs in /verif/fixes/C17-*.diff.",
 )
 
 
